@@ -353,7 +353,25 @@ def _run(strategy, execute):
     return run
 
 
+# ----------------------------------------------------------------------------- (f) large tensors
+
+LARGE = [("fp32", "qint8", [1030, 4099], None), ("fp16", "qfloat8_e4m3fn", [1030, 4099], 0), ("bf16", "qfloat8_e5m2", [5, 1048577], -1),
+         ("fp32", "qint8", [5, 1048577], 0), ("fp16", "qint8", [3, 700, 2003], None), ("fp32", "qfloat8_e4m3fn", [2100, 2003], -1),
+         ("bf16", "qint8", [2049, 2048], 0), ("fp32", "qfloat8_e5m2", [4194305], None)]
+
+
+def run_large(ctx):
+    """"all tensor ranks/shapes" includes tensors of several million elements, whose sizes are no multiples of any block size an
+    implementation might process them by: a few of them, with the same oracle as the layout cases (every element is judged)"""
+    from vlib.core import enumerate_cases
+
+    cs = [{"dtype": dt, "qtype": qt, "shape": shape, "axis": ax, "layout": ["contig", 0], "seed": 17 * ctx.seed + k, "fill": "noise", "decades": 2, "sat": 1.0, "shift": 0}
+          for k, (dt, qt, shape, ax) in enumerate(LARGE)]
+    enumerate_cases(ctx, cs[ctx.shard :: ctx.nshards], exec_layout, exhaustive_name=None)
+
+
 SUBCHECKS = {
+    "large": {"run": run_large, "execute": exec_layout},
     "square": {"run": run_square, "execute": exec_square},
     "fp32": {"run": _run(fp32_cases(), exec_fp32), "execute": exec_fp32},
     "layout": {"run": _run(layout_cases(), exec_layout), "execute": exec_layout},
